@@ -94,8 +94,7 @@ Definition children (p : pt) : list pt :=
 (* all nodes of a tree, pre-order *)
 Fixpoint nodes (p : pt) : list pt :=
   p :: match p with
-       | PSeq _ subs _ _ | PAmc _ subs _ _ _ =>
-           (fix go (l : list pt) : list pt := match l with [] => [] | c :: r => (nodes c ++ go r)%list end) subs
+       | PSeq _ subs _ _ | PAmc _ subs _ _ _ => flat_map nodes subs
        | PRep _ b _ _ _ | PFor _ b _ _ _ _ | PMap _ b _ _ _ _ | PPar _ b _ | PArith _ b _ _ _ | PRev _ b => nodes b
        | PAA _ l r _ _ => (nodes l ++ nodes r)%list
        | _ => []
@@ -400,46 +399,53 @@ Definition is_typed (j : json) : bool := match j with JObj fs => has_key K_TYPE 
 Definition drop_hdr_keys (kw : kwargs) : kwargs :=
   filter (fun kd => negb (String.eqb (fst kd) K_TYPE || String.eqb (fst kd) K_ID)) kw.
 
-(* json.loads with object_hook=filter_serializables: nested objects first, left to right *)
+(* json.loads with object_hook=filter_serializables: nested objects first, left to right.
+   D is the decoder for nested objects (decode itself). *)
+Section Fields.
+Variable D : json -> lstate -> result (pt * lstate).
+Fixpoint dec_elems (l : list json) (st : lstate) : result (list pt * lstate) :=
+  match l with
+  | [] => Ok ([], st)
+  | x :: r => do (p, st1) <- D x st; do (ps, st2) <- dec_elems r st1; Ok (p :: ps, st2)
+  end.
+Definition dec_field_val (v : json) (st : lstate) : result (dval * lstate) :=
+  match v with
+  | JObj vfs => if has_key K_TYPE vfs then do (p, st') <- D v st; Ok (DSub p, st') else Ok (DRaw v, st)
+  | JList l =>
+      if negb (is_nil l) && forallb is_typed l then do (ps, st') <- dec_elems l st; Ok (DSubs ps, st')
+      else Ok (DRaw v, st)
+  | _ => Ok (DRaw v, st)
+  end.
+Fixpoint dec_fields (fs : list (string * json)) (st : lstate) : result (kwargs * lstate) :=
+  match fs with
+  | [] => Ok ([], st)
+  | kv :: r =>
+      do (d, st1) <- dec_field_val (snd kv) st;
+      do (ds, st2) <- dec_fields r st1; Ok ((fst kv, d) :: ds, st2)
+  end.
+End Fields.
+
+(* filter_serializables on a completed object *)
+Definition finish (rs : resolver) (kw : kwargs) (st1 : lstate) : result (pt * lstate) :=
+  match lookup K_TYPE kw with
+  | Some (DRaw (JStr tag)) =>
+      let oid := match lookup K_ID kw with Some (DRaw (JStr i)) => Some i | _ => None end in
+      if String.eqb tag T_REF then
+        match oid with Some i => rs st1 i | None => Err ERuntime end
+      else
+        match lookup K_ID kw with
+        | Some (DRaw (JStr "")) => Err EValue
+        | Some (DRaw (JStr _)) | Some (DRaw JNull) | None =>
+            do p <- construct tag (mkHdr (l_next st1) oid) (drop_hdr_keys kw);
+            Ok (p, mkL (N.succ (l_next st1)) (l_cache st1))
+        | _ => Err EType
+        end
+  | _ => Err EType     (* the document is a plain dict, not a Serializable *)
+  end.
+
 Fixpoint decode (rs : resolver) (j : json) (st : lstate) : result (pt * lstate) :=
   match j with
-  | JObj fs =>
-      let fix fields (fs : list (string * json)) (st : lstate) : result (kwargs * lstate) :=
-        match fs with
-        | [] => Ok ([], st)
-        | (k, v) :: r =>
-            do (d, st1) <-
-              match v with
-              | JObj vfs => if has_key K_TYPE vfs then do (p, st') <- decode rs v st; Ok (DSub p, st') else Ok (DRaw v, st)
-              | JList l =>
-                  if negb (is_nil l) && forallb is_typed l then
-                    let fix elems (l : list json) (st : lstate) : result (list pt * lstate) :=
-                      match l with
-                      | [] => Ok ([], st)
-                      | x :: r => do (p, st1) <- decode rs x st; do (ps, st2) <- elems r st1; Ok (p :: ps, st2)
-                      end in
-                    do (ps, st') <- elems l st; Ok (DSubs ps, st')
-                  else Ok (DRaw v, st)
-              | _ => Ok (DRaw v, st)
-              end;
-            do (ds, st2) <- fields r st1; Ok ((k, d) :: ds, st2)
-        end in
-      do (kw, st1) <- fields fs st;
-      match lookup K_TYPE kw with
-      | Some (DRaw (JStr tag)) =>
-          let oid := match lookup K_ID kw with Some (DRaw (JStr i)) => Some i | _ => None end in
-          if String.eqb tag T_REF then
-            match oid with Some i => rs st1 i | None => Err ERuntime end
-          else
-            match lookup K_ID kw with
-            | Some (DRaw (JStr "")) => Err EValue
-            | Some (DRaw (JStr _)) | Some (DRaw JNull) | None =>
-                do p <- construct tag (mkHdr (l_next st1) oid) (drop_hdr_keys kw);
-                Ok (p, mkL (N.succ (l_next st1)) (l_cache st1))
-            | _ => Err EType
-            end
-      | _ => Err EType     (* the document is a plain dict, not a Serializable *)
-      end
+  | JObj fs => do (kw, st1) <- dec_fields (decode rs) fs st; finish rs kw st1
   | _ => Err EType
   end.
 
@@ -488,29 +494,35 @@ Definition in_storage (s : sstate) (i : string) : bool := has_key i (s_temp s) |
    of the object's fields; a named one is stored through storage[identifier] = o (nested overwrite, same
    transaction) unless the storage (temporary storage or backend — NOT the running transaction) already has the
    identifier, in which case it must be the very same object. *)
+Section Visit.
+Variable V : pt -> tx -> result tx.     (* visit s, for nested objects *)
+Variable s : sstate.
+Definition visit_one (c : pt) (t : tx) : result tx :=
+  match pt_id c with
+  | None => V c t
+  | Some i =>
+      if negb (in_storage s i) then
+        do t' <- V c t; Ok (tx_put t' i (to_data c, c))
+      else
+        match lookup i (s_temp s) with
+        | Some q => if N.eqb (pt_oid q) (pt_oid c) then Ok t else Err ERuntime
+        | None => Err ERuntime   (* loaded from the backend: a new object, never `is` c *)
+        end
+  end.
+Fixpoint visit_list (l : list pt) (t : tx) : result tx :=
+  match l with
+  | [] => Ok t
+  | c :: r => do t1 <- visit_one c t; visit_list r t1
+  end.
+End Visit.
+
 Fixpoint visit (s : sstate) (p : pt) (t : tx) : result tx :=
   if negb (node_encodable p) then Err EType else
-  let one (c : pt) (t : tx) : result tx :=
-    match pt_id c with
-    | None => visit s c t
-    | Some i =>
-        if negb (in_storage s i) then
-          do t' <- visit s c t; Ok (tx_put t' i (to_data c, c))
-        else
-          match lookup i (s_temp s) with
-          | Some q => if N.eqb (pt_oid q) (pt_oid c) then Ok t else Err ERuntime
-          | None => Err ERuntime   (* loaded from the backend: a new object, never `is` c *)
-          end
-    end in
-  let fix visit_list (l : list pt) (t : tx) : result tx :=
-    match l with
-    | [] => Ok t
-    | c :: r => do t1 <- one c t; visit_list r t1
-    end in
   match p with
-  | PSeq _ subs _ _ | PAmc _ subs _ _ _ => visit_list subs t
-  | PRep _ b _ _ _ | PFor _ b _ _ _ _ | PMap _ b _ _ _ _ | PPar _ b _ | PArith _ b _ _ _ | PRev _ b => one b t
-  | PAA _ l r _ _ => do t1 <- one l t; one r t1          (* sort_keys: "lhs" is encoded before "rhs" *)
+  | PSeq _ subs _ _ | PAmc _ subs _ _ _ => visit_list (visit s) s subs t
+  | PRep _ b _ _ _ | PFor _ b _ _ _ _ | PMap _ b _ _ _ _ | PPar _ b _ | PArith _ b _ _ _ | PRev _ b =>
+      visit_one (visit s) s b t
+  | PAA _ l r _ _ => do t1 <- visit_one (visit s) s l t; visit_one (visit s) s r t1   (* sort_keys: "lhs" before "rhs" *)
   | _ => Ok t
   end.
 
